@@ -5,26 +5,35 @@ QG = (12, 6)    # quick: 64 leaves (127 nodes); same code, two #define lines of 
 DEPTH_Q = 12 - 6 + 2
 DEPTH_R = 16 - 6 + 2
 
-def tree(name, entry, enforce, desc, loops, canaries=1):
+def tree(name, entry, enforce, desc, loops, canaries=1, sliced=False):
     hs = []
-    for tag, geom, tiers, to, mem in (("g12_6", QG, ("quick",), 900, 8), ("real", None, ("thorough",), 7200, 24)):
+    variants = [("g12_6", QG, ("quick",), 900, 8, (0,), None),
+                ("g14_6", (14, 6), ("thorough",), 7200, 16, (0,), None)]
+    if sliced:
+        variants.append(("real", None, ("thorough",), 14400, 32, (1, 2, 3), "kissat"))
+    else:
+        variants.append(("real", None, ("thorough",), 7200, 24, (0,), None))
+    for tag, geom, tiers, to, mem, slices, solver in variants:
         t, b = geom if geom else (16, 6)
         nodes = 1 << (t - b + 1)
         depth = t - b + 2
         uw = [f"{enforce}.{k}:{depth if enforce != 'buddy_init' else nodes + 1}" for k in range(loops)] + [f"b_wf.0:{nodes + 1}", f"{entry}.0:{nodes + 1}"]
-        hs.append(H(name=f"C12.{name}.{tag}", file=F, entry=entry, enforce=enforce, funcs=[enforce], geometry=geom,
-                    kind="proof" if geom is None else "bounded",
-                    bound="" if geom is None else f"reduced arena geometry B_TOTAL_EXP={t}, B_BLOCK_EXP={b} (all well-formed trees of it, all requests)",
-                    unwindset=tuple(uw), tiers=tiers, timeout=to, mem_gb=mem, canaries=canaries, objbits=8,
-                    desc=desc + " - every well-formed tree, depth loops closed by the constant tree depth (unwinding assertions: complete)"))
+        for sl in slices:
+            sfx = "" if sl == 0 else f".slice{sl}"
+            what = {0: "", 1: " [slice 1: representation invariant]", 2: " [slice 2: result/placement clauses]", 3: " [slice 3: live-set clauses]"}[sl]
+            hs.append(H(name=f"C12.{name}.{tag}{sfx}", file=F, entry=entry, enforce=enforce, funcs=[enforce], geometry=geom,
+                        kind="proof" if geom is None else "bounded", defs=(f"C12_SLICE={sl}",), solver=solver,
+                        bound="" if geom is None else f"reduced arena geometry B_TOTAL_EXP={t}, B_BLOCK_EXP={b} (all well-formed trees of it, all requests)",
+                        unwindset=tuple(uw), tiers=tiers, timeout=to, mem_gb=mem, canaries=canaries if sl == 0 else 1, objbits=8,
+                        desc=desc + what + " - every well-formed tree, depth loops closed by the constant tree depth (unwinding assertions: complete)"))
     return hs
 
 HARNESSES = (
     [H(name="C12.block_compute", file=F, entry="h_block_compute", funcs=["buddy_allocation_block_compute"], objbits=8,
        desc="size class = smallest power of two >= max(req,64), exact over-size recognition; all 2^64 request sizes (loop-free)")]
     + tree("buddy_init", "h_buddy_init", "buddy_init", "WF and everything free after init", 1)
-    + tree("buddy_malloc", "h_buddy_malloc", "buddy_malloc", "WF preserved; NULL iff root < class, then nothing changes; block inside arena, aligned, disjoint from every live block (ghost node), live blocks stay live; frame = longest[] only", 2, canaries=3)
-    + tree("buddy_free", "h_buddy_free", "buddy_free", "WF preserved; returns block size; exactly that block dies; space reusable; frame = longest[] only", 2, canaries=2)
+    + tree("buddy_malloc", "h_buddy_malloc", "buddy_malloc", "WF preserved; NULL iff root < class, then nothing changes; block inside arena, aligned, disjoint from every live block (ghost node), live blocks stay live; frame = longest[] only", 2, canaries=3, sliced=True)
+    + tree("buddy_free", "h_buddy_free", "buddy_free", "WF preserved; returns block size; exactly that block dies; space reusable; frame = longest[] only", 2, canaries=2, sliced=True)
     + tree("buddy_realloc", "h_buddy_realloc", "buddy_best_effort_realloc", "assigns nothing; handled only if the block is large enough; else reports the old size", 1, canaries=2)
 )
 EXPLANATION = ("buddy_init/malloc/free/best_effort_realloc of the real buddy.c are checked against contracts over an abstract view "
